@@ -417,12 +417,20 @@ class Live(Family):
                 d["btype"], d["status"], d["fill"], d["meta"] = "str", 20, rng.choice(FILLS_S[:4]) if sz <= 4 * MIB else "ascii", rng.choice(["f.gmi", "f.txt"])
             d.update({"mode": mode, "supplied": rng.random() < 0.5, "reader": rng.choice(["fast", "slow", "bursty"]) if sz <= 4 * MIB else rng.choice(["fast", "bursty"]),
                       "sndbuf": rng.choice([None, 4096, 16384]), "rcvbuf": rng.choice([None, 2048, 8192])})
+            # bytes the client sends after its request line (a sloppy or hostile client): they never change what it receives (C07), also
+            # not by making the server close a socket with unread input (the kernel then resets the connection and drops what it
+            # had not sent yet)
+            d["trail"] = rng.choice([0, 0, 0, 1, 70000, 1 << 20]) if thorough else 0
             if thorough and rng.random() < 0.12:
                 # a client that stops reading for 31 s (on the server's clock) in the middle of the download
                 d.update({"reader": "stall", "sndbuf": rng.choice([4096, 16384]), "rcvbuf": rng.choice([2048, 8192]), "stalls": rng.choice([1, 3, 12])})
                 if d["stalls"] == 12 and d["n"] < MIB:
                     d["n"] = MIB + rng.randint(0, 5000)   # twelve stalls (372 s in total) all fall inside the transfer
             yield d
+        # fixed witness: a multi-megabyte body to a fast reader that sent a megabyte of junk after its request line
+        d = gen_dims(rng, 3 * MIB + 17, not thorough)
+        d.update({"btype": "bytes", "status": 20, "mode": "factory", "supplied": False, "reader": "fast", "sndbuf": None, "rcvbuf": None, "trail": 1 << 20})
+        yield d
 
     def impl(self, case):
         from nauyaca.protocol.response import GeminiResponse
@@ -457,12 +465,12 @@ class Live(Family):
                 sink = tls_peer._Sink()
                 kw = {"mode": "start_server", "docroot": tmp, "supplied": case["supplied"]} if case["mode"] == "static" else {"mode": "factory", "handler": handler}
                 with tls_live.LiveServer(backend, sndbuf=case["sndbuf"], **kw) as srv:
-                    r = tls_live.tls_fetch(srv.port, url.encode() + b"\r\n", reader=case["reader"], rcvbuf=case["rcvbuf"],
+                    r = tls_live.tls_fetch(srv.port, url.encode() + b"\r\n" + b"T" * case.get("trail", 0), reader=case["reader"], rcvbuf=case["rcvbuf"],
                                            rng=random.Random(case["seed"]), sink=sink.add, timeout=120,
                                            stall=lambda: srv.advance(stall_seconds()), stalls=case.get("stalls", 1))
                     used = srv.used_backend
                 g = sink.result()
-                g.update({"eof": r["eof"], "version": r["version"], "used": used, "elapsed": r.get("elapsed", 0), "reader": case["reader"]})
+                g.update({"eof": r["eof"], "version": r["version"], "used": used, "elapsed": r.get("elapsed", 0), "reader": case["reader"], "trail": case.get("trail", 0)})
                 obs[backend] = g
         finally:
             H.StaticFileHandler.handle = orig
@@ -499,7 +507,7 @@ class Live(Family):
             # the download was torn down 30 s after close(): the model's identity transport rests on the assumption that
             # asyncio flushes what was written before close(); where that assumption fails the ORACLE reports the case
             # (signature live-*-cut-*), it is not counted a second time as a model disagreement
-            return g["blen"] < expected["blen"] and g["eof"] != "clean" and (g.get("reader") == "stall" or g.get("elapsed", 0) >= 29)
+            return g["blen"] <= expected["blen"] and g["eof"] != "clean" and (g.get("reader") == "stall" or g.get("elapsed", 0) >= 29 or g.get("trail", 0) >= 65536)
 
         return all(cut(obs[b]) or (expected["header"] == obs[b]["header"] and expected["blen"] == obs[b]["blen"] and
                                    (expected["bsha"] is None or expected["bsha"] == obs[b]["bsha"])) for b in ("std", "pyo"))
@@ -512,6 +520,12 @@ class Live(Family):
             v = judge(f"live-{b}", obs[b], bytes.fromhex(w["header"]), w["blen"], w["bsha"])
             if v:
                 g = obs[b]
+                if case.get("trail", 0) >= 65536 and g["eof"] != "clean" and v[0].endswith(("-body-truncated", "-no-clean-eof")):
+                    # its own signature: the connection was RESET because junk sent after the request line was still arriving when the
+                    # server closed (known finding reset-by-trailing-junk; any other truncation keeps its ordinary signature)
+                    return (f"live-{b}-reset-by-trailing-junk",
+                            f"{b} backend: the client sent {case['trail']} bytes after its request line and received {g['blen']} of {w['blen']} body bytes "
+                            f"before the connection was reset (end of stream: {g['eof']}; reader: {case['reader']})")
                 if v[0].endswith("-body-truncated") and g["eof"] != "clean" and (case["reader"] == "stall" or g.get("elapsed", 0) >= 29):
                     # a distinct, stable signature for the download that is still in progress 30 s after the
                     # server called transport.close(): asyncio's SSL transport gives up flushing (ssl_shutdown_timeout)
